@@ -211,7 +211,17 @@ func replayOne(w *conc.World, dir string, ln *Line, bal bool) (step int, f *fail
 	defer os.RemoveAll(dir)
 	opts := &chain.NewChanOpts{}
 	n := w.OpenNode(dir, opts)
-	defer n.Close()
+	// no deferred Close: after a panic inside the library its locks may still be held (Close would hang);
+	// the node is then simply abandoned, as a crashed process would be
+	defer func() {
+		if f == nil || f.kind != "panic" {
+			if r := recover(); r != nil {
+				f = mkfail("panic", fmt.Sprint("panic: ", r, "\n", string(debug.Stack())))
+				return
+			}
+			n.Close()
+		}
+	}()
 	if bal {
 		common.BlockChain = n.Ch
 		wallet.Disable()
@@ -241,6 +251,8 @@ func replayOne(w *conc.World, dir string, ln *Line, bal bool) (step int, f *fail
 					return i, mkfail("later", fmt.Sprintf("block %d maybe-later=%v, model predicts %v", st.B, later, st.P.Later), st.B), nil
 				}
 			}
+		case "Idle":
+			n.Ch.Idle()
 		case "BalEnable":
 			if bal {
 				wallet.LoadBalancesFromUtxo()
